@@ -310,7 +310,8 @@ RecvEv(ws0, v0) ==
                   "phantom:" \o OpName(v.op))}
 
 RecvErr(ws, cls) ==
-  IF "readfault" \in ws.flags /\ cls # "overflow" THEN Note([ws EXCEPT !.flags = @ \ {"readfault"}], "read_fault")   \* the injected read(2) failure is a genuine one
+  IF "readfault_on" \in ws.flags /\ cls # "overflow" THEN Note(ws, "read_fault")                                      \* every read fails while the fault is on
+  ELSE IF "readfault" \in ws.flags /\ cls # "overflow" THEN Note([ws EXCEPT !.flags = @ \ {"readfault"}], "read_fault")   \* the injected read(2) failure is a genuine one
   ELSE IF "regfault" \in ws.flags /\ cls = "errno:EINVAL" THEN Note([ws EXCEPT !.flags = @ \ {"regfault"}], "new_directory_unwatchable")
   ELSE IF "regloop" \in ws.flags /\ cls = "errno:ELOOP" THEN Note([ws EXCEPT !.flags = @ \ {"regloop"}], "new_directory_unwatchable")
   ELSE IF cls = "overflow"
